@@ -264,6 +264,16 @@ class FuncAnalysis:
         elif isinstance(s, ast.If):
             self.ev(s.test)
             e0 = dict(self.env)
+            # isinstance(x, xr.DataArray) / isinstance(x, xr.Dataset) narrows the kind of x inside the branch (which places `.attrs = ` writes
+            # depends on it: a DataArray's attrs live on its Variable, a Dataset's on the container)
+            t_ = s.test
+            if isinstance(t_, ast.Call) and isinstance(t_.func, ast.Name) and t_.func.id == "isinstance" and len(t_.args) == 2 \
+                    and isinstance(t_.args[0], ast.Name) and t_.args[0].id in self.env:
+                cn_ = unparse(t_.args[1]).split(".")[-1]
+                kind_ = {"DataArray": "DA", "Dataset": "DS"}.get(cn_)
+                cur_ = self.env[t_.args[0].id]
+                if kind_ and cur_.kind in ("DS", "DA", "XR", "TOP") and cur_.kind != kind_:
+                    self.env[t_.args[0].id] = cur_.clone(kind=kind_)
             self.block(s.body)
             e1 = self.env
             self.env = dict(e0)
@@ -582,6 +592,10 @@ class FuncAnalysis:
             return "SEQ"
         if isinstance(e, ast.Name):
             v = self.env.get(e.id)
+            # an element taken from a sequence by a for loop may be a scalar label (for d in dirs: x.sel(dir=d) is a VIEW): not provably a sequence
+            if any(isinstance(l_, (ast.For, ast.AsyncFor, ast.comprehension)) and any(isinstance(t_, ast.Name) and t_.id == e.id for t_ in ast.walk(l_.target))
+                   for l_ in ast.walk(self.fi.node)):
+                return "UNK"
             if v is not None and v.kind == "PY" :
                 return "SEQ"
             if v is not None and v.kind == "ND":
@@ -1350,6 +1364,9 @@ class FuncAnalysis:
                     return self.newvars(x)
                 if e.args and isinstance(self.repo.const(self.mod, e.args[0]), dict):
                     return self.newvars(x)
+                if k in ("DA", "XR", "TOP") and e.args and isinstance(self.repo.const(self.mod, e.args[0]), str):
+                    # DataArray.rename(name) is _replace(name=..): a new DataArray around the SAME Variable object (attrs dict and encoding included)
+                    return AV("DA" if k == "DA" else k, C=EMPTY, V=x.V, B=x.B, Bc=x.Bc, vc=dict(x.vc))
                 return self.view(x)
             if cl == X.SAME:
                 return x
